@@ -11,11 +11,11 @@ import (
 
 func init() {
 	register(
-		&Rule{ID: "SIG-PAYLOAD", Doc: "every ed25519.Sign/Verify message is exactly block||alg||nextkey (link) or block||alg||nextkey||signature (seal) over one signed block; signers store what they sign", Run: ruleSigPayload, Min: 6},
+		&Rule{ID: "SIG-PAYLOAD", Doc: "every ed25519.Sign/Verify message is exactly block||alg||nextkey (link) or block||alg||nextkey||signature (seal) over one signed block; signers store what they sign", Run: ruleSigPayload, Min: 3},
 		&Rule{ID: "SIG-WALK", Doc: "NewVerifier is reached only after the authority link was verified with the root key, every block link with the previous next key, and the proof against the last key", Run: ruleSigWalk, Min: 7},
 		&Rule{ID: "SIG-GATE", Doc: "Unmarshal accepts a token only after the key/signature size gates of the authority and of every block", Run: ruleSigGate, Min: 4},
 		&Rule{ID: "SIG-PAIR", Doc: "each signer draws exactly one key pair: public half announced and signed, seed stored as the next secret", Run: ruleSigPair, Min: 4},
-		&Rule{ID: "CONS-LEN", Doc: "every Biscuit literal has len(blocks) == len(container.Blocks) by construction", Run: ruleConsLen, Min: 4},
+		&Rule{ID: "CONS-LEN", Doc: "every Biscuit literal has len(blocks) == len(container.Blocks) by construction", Run: ruleConsLen, Min: 2},
 	)
 }
 
@@ -32,8 +32,8 @@ const (
 func (k compKind) String() string { return [...]string{"OTHER", "BLOCK", "ALG", "KEY", "SIG"}[k] }
 
 type component struct {
-	kind  compKind
-	sigma string    // access path of the signed block this component was read from; "" for fresh values / constants
+	kind     compKind
+	sigma    string    // access path of the signed block this component was read from; "" for fresh values / constants
 	val      ssa.Value // the component value (unwrapped)
 	sigmaVal ssa.Value // the *pb.SignedBlock value the component was read from (nil for fresh values)
 	note     string
